@@ -268,6 +268,8 @@ def mismatch_pattern(got, want):
         return "non-sympy-attribute-changed"
     if getattr(got, "args", None) == getattr(want, "args", None):
         return "equal-args-but-unequal"
+    if attr_loss_site(got, want) is not None:
+        return "non-sympy-attribute-changed"
     return "arguments-differ"
 
 
@@ -325,7 +327,7 @@ class ClassReplayer:
             self.steps += 1
             self.by_action[act] = self.by_action.get(act, 0) + 1
             hist = hist + [(act, self.show_args(act, args))]
-            case = {"history": hist, "before": T.show(cur), "expected": T.show(nxt), **ctx}
+            case = {"history": hist, "before": T.show(cur), "expected": T.show(nxt), "object": describe(real), **ctx}
             try:
                 with warnings.catch_warnings():
                     warnings.simplefilter("ignore")
@@ -705,6 +707,11 @@ def simulate_buckets(sigs, *, per_outer, depth, seed, jobs=5, leafs=("x", "y", "
         runs.append((cfg, per_outer, seed * 100 + len(runs)))
     runs.append((class_cfg(sigs, init="ClassInitD1", ctxs="ClassCtxs", max_ops=5, max_depth=3, nest_anytime=True, check=False, leafs=leafs),
                  per_outer, seed * 100 + 99))
+    # the inner signatures with the fewest terms (one SymPy argument, no attribute) would be starved by uniform sampling
+    rare = ["B" + s for s in sigs if s[:2] == "10"]
+    if rare:
+        runs.append((class_cfg(sigs, inner=rare, init="ClassInitD2", ctxs="ClassCtxs", max_ops=5, max_depth=3, nest_anytime=True,
+                               check=False, leafs=leafs), 2 * per_outer, seed * 100 + 98))
     with ThreadPoolExecutor(max_workers=jobs) as ex:
         futs = [ex.submit(tlc.simulate, "ExprOps_MC", cfg, num=n, depth=depth, seed=sd, timeout=900) for cfg, n, sd in runs]
         behs = []
